@@ -920,8 +920,20 @@ func ruleC06R5(r *Run) {
 	fbs := p.callsTo(dc, "findBug")
 	cfs := p.callsTo(dc, "checkFailFile")
 	globs := p.callsTo(dc, "path/filepath.Glob")
+	// one replay site inside a loop over the list, or two: the explicit file replayed by a call of its own that
+	// precedes the loop over the glob matches
+	var cfX *callSite
+	if len(cfs) == 2 {
+		for i, c := range cfs {
+			if innermostLoop(c.Instr) == nil && innermostLoop(cfs[1-i].Instr) != nil {
+				cfX = c
+				cfs = []*callSite{cfs[1-i]}
+				break
+			}
+		}
+	}
 	if len(fbs) != 1 || len(cfs) != 1 || len(globs) != 1 {
-		r.Fail("doCheck#shape", dc.Pos(), fmt.Sprintf("doCheck must glob once, replay fail files in one loop and call findBug once (Glob=%d checkFailFile=%d findBug=%d)", len(globs), len(cfs), len(fbs)))
+		r.Fail("doCheck#shape", dc.Pos(), fmt.Sprintf("doCheck must glob once, replay fail files in one loop (the explicit one possibly by a call of its own before it) and call findBug once (Glob=%d checkFailFile=%d findBug=%d)", len(globs), len(cfs), len(fbs)))
 		return
 	}
 	fb, cf, gl := fbs[0], cfs[0], globs[0]
@@ -1067,6 +1079,26 @@ func ruleC06R5(r *Run) {
 		}
 	}
 	_ = rng
+	if cfX != nil {
+		// two-site form: the explicit file is replayed, under failfile != "", before the loop, which ranges over the
+		// glob result (or nothing)
+		okX := p.resolve(cfX.Arg(1)) == ssa.Value(paramNamed(dc, "failfile")) && holds(p.facts(cfX.Instr), "$failfile", "!=", `""`) &&
+			reachable(cfX.Instr, cf.Instr, nil) && !reachable(cf.Instr, cfX.Instr, nil) && !reachable(fb.Instr, cfX.Instr, nil)
+		okRange := true
+		isM := false
+		for _, a := range p.alternatives(rngBase(p, cf.Arg(1)), 0) {
+			switch {
+			case p.same(a.Val, extractOr(gl.Value(), 0)):
+				isM = true
+			case p.isEmptySlice(a.Val):
+			default:
+				okRange = false
+			}
+		}
+		// without an explicit file nothing else is replayed before the loop: the call is the only statement skipped
+		okOrder = okX && okRange && isM
+		listDesc = fmt.Sprintf("explicit call before the loop: explicit-site=%v loop-over-matches=%v", okX, okRange && isM)
+	}
 	r.Check("doCheck#explicit-first", cf.Instr.Pos(), okOrder, "the explicit -rapid.failfile comes first, glob matches are appended after it", "the explicit fail file is not placed before the glob matches ("+listDesc+")")
 	// reproducing file returns valid=0 and its name
 	n := 0
@@ -1076,13 +1108,18 @@ func ruleC06R5(r *Run) {
 		if l := p.liftTo(ret, dc); l != nil {
 			at = l
 		}
+		site := cf
 		if !loop.Body[at.Block()] && !dominatesBlock(cf.Instr.Block(), at.Block()) {
-			continue
+			if cfX == nil || !dominatesBlock(cfX.Instr.Block(), at.Block()) {
+				continue
+			}
+			site = cfX
 		}
 		if at == fb.Instr || reachable(fb.Instr, at, nil) {
 			continue
 		}
 		n++
+		cf := site
 		v0, ok0 := constInt(p.resolve(p.res(ret, 0)))
 		name := p.resolve(p.res(ret, 4))
 		okName := p.same(name, cf.Arg(1))
@@ -1130,8 +1167,33 @@ func ruleC06R5(r *Run) {
 		}
 		r.Check("doCheck#failfile-continue", cf.Instr.Pos(), okCont, "the replay loop moves on to the next file only when both errors are nil", "the replay loop can continue (and reach the random phase) although a fail file reproduced a failure")
 	}
+	if cfX != nil {
+		// the explicit site: control leaves the region it dominates (towards the loop) only with both errors nil
+		e1, e2 := p.expr(extractOr(cfX.Value(), 1)), p.expr(extractOr(cfX.Value(), 2))
+		okCont := true
+		xb := cfX.Instr.Block()
+		for _, b := range p.body(dc) {
+			if b.Parent() != dc || !xb.Dominates(b) {
+				continue
+			}
+			for _, su := range b.Succs {
+				if xb.Dominates(su) && su != xb {
+					continue
+				}
+				facts := p.facts(b.Instrs[len(b.Instrs)-1])
+				if iff, ok := b.Instrs[len(b.Instrs)-1].(*ssa.If); ok && b.Succs[0] != b.Succs[1] {
+					facts = append(append([]rel{}, facts...), p.relOf(guard{Cond: iff.Cond, Pol: b.Succs[0] == su}))
+				}
+				if !(holds(facts, e1, "==", "nil") && holds(facts, e2, "==", "nil")) {
+					okCont = false
+				}
+			}
+		}
+		r.Check("doCheck#failfile-continue.explicit", cfX.Instr.Pos(), okCont, "after the explicit fail file the check moves on only when both errors are nil", "doCheck can move on to the discovered fail files and the random phase although the explicit fail file reproduced a failure")
+	}
 	r.Floor("fail-file returns in doCheck", n, 1)
 }
+
 
 func dominatesBlock(a, b *ssa.BasicBlock) bool { return a.Dominates(b) }
 
@@ -1321,7 +1383,7 @@ func ruleC17R1(r *Run) {
 		for _, in := range b.Instrs {
 			var base ssa.Value
 			var k int64
-			var isC bool
+			var isC, isStr bool
 			switch x := in.(type) {
 			case *ssa.IndexAddr:
 				base = x.X
@@ -1339,6 +1401,20 @@ func ruleC17R1(r *Run) {
 				}
 				k, isC = constInt(p.resolve(x.Low))
 				k-- // data[1:] needs len >= 1, i.e. index 0 valid
+			case *ssa.Lookup: // s[k] on a string
+				if _, isMap := x.X.Type().Underlying().(*types.Map); isMap {
+					continue
+				}
+				base = x.X
+				k, isC = constInt(p.resolve(x.Index))
+				isStr = true
+			case *ssa.Index: // s[k] on a string (arrays have a static length)
+				if bt, isB := x.X.Type().Underlying().(*types.Basic); !isB || bt.Info()&types.IsString == 0 {
+					continue
+				}
+				base = x.X
+				k, isC = constInt(p.resolve(x.Index))
+				isStr = true
 			default:
 				continue
 			}
@@ -1349,6 +1425,10 @@ func ruleC17R1(r *Run) {
 			ln := "builtin:len(" + p.expr(base) + ")"
 			facts := p.facts(in)
 			ok := false
+			if isStr && k == 0 {
+				// a string known to differ from "" has a first byte
+				ok = holds(facts, p.expr(base), "!=", `""`)
+			}
 			for _, f := range facts {
 				if f.X != ln {
 					continue
